@@ -322,6 +322,20 @@ def typed_mutation_streams(rng, tier, per_type=None, max_len=400):
                         doc = b"\x82" + doc + b"\x82\x01\x02"
                     mops_.append(f"tdec {rt.name} {gen.hexb(doc)} #carry")
                     mmops.append(f"tdec {rt.desc_s} {gen.hexb(doc)}")
+    # sets and maps from arrays / maps that repeat an element / a key (in the same or another head width): well-formed input, the collection's own
+    # insert decides (the later key wins), the item is consumed to its end
+    for rt in registry():
+        if rt.enconly:
+            continue
+        if rt.name in ("BTreeSet<u8>", "BTreeSet<i32>", "HashSet<i32>", "HashSet<u64>"):
+            docs = ["83010201", "9f0101ff", "8218010" + "1", "840505050" + "5", "8301190001" + "01", "9f01021801ff", "82" + "1817" + "17"]
+        elif rt.name in ("BTreeMap<u8,u8>",):
+            docs = ["a201020103", "bf01020103ff", "a2180102" + "0103", "a301010102" + "0103", "a2010201" + "02"]
+        else:
+            continue
+        for doc in docs:
+            mops_.append(f"tdec {rt.name} {doc} #repeat")
+            mmops.append(f"tdec {rt.desc_s} {doc}")
     s1 = Stream("typed-prefix", "hcore", pops, model_ops=pmops, judge=judge_prefix,
                 nontrivial=lambda op, impl: impl.startswith("err eoi"),
                 rule="tdec <type> <strict prefix of a valid encoding of a value of that type>: must be `err eoi`")
